@@ -171,7 +171,7 @@ func (h *Handler) Handle(req, resp dhcpv6.DHCPv6) (dhcpv6.DHCPv6, bool) {
 		for hintIdx, h := range hints {
 			for leaseIdx := range knownLeases {
 				if samePrefix(h.Prefix, &knownLeases[leaseIdx].Prefix) {
-					expire := timeNow().Add(leaseDuration)
+					expire := time.Now().Add(leaseDuration)
 					if knownLeases[leaseIdx].Expire.Before(expire) {
 						knownLeases[leaseIdx].Expire = expire
 					}
@@ -202,7 +202,7 @@ func (h *Handler) Handle(req, resp dhcpv6.DHCPv6) (dhcpv6.DHCPv6, bool) {
 						continue
 					}
 				}
-				expire := timeNow().Add(leaseDuration)
+				expire := time.Now().Add(leaseDuration)
 				if knownLeases[leaseIdx].Expire.Before(expire) {
 					knownLeases[leaseIdx].Expire = expire
 				}
@@ -244,7 +244,7 @@ func (h *Handler) Handle(req, resp dhcpv6.DHCPv6) (dhcpv6.DHCPv6, bool) {
 				continue
 			}
 			l := lease{
-				Expire: timeNow().Add(leaseDuration),
+				Expire: time.Now().Add(leaseDuration),
 				Prefix: allocated,
 			}
 
